@@ -144,9 +144,9 @@ type Stats struct {
 
 type env struct {
 	out, replays, tier, replay, known, regress string
-	seed                                     uint64
-	shard, nshards, repeat                   int
-	scale                                    float64
+	seed                                       uint64
+	shard, nshards, repeat                     int
+	scale                                      float64
 }
 
 func getenv() env {
@@ -535,9 +535,12 @@ func (s *tbShim) Errorf(format string, args ...any) {
 	}
 	s.T.Logf(format, args...)
 }
-func (s *tbShim) Error(args ...any)                 { s.Errorf("%s", fmt.Sprint(args...)) }
-func (s *tbShim) Fatalf(format string, args ...any) { s.Errorf(format, args...); panic("vk: rapid fatal") }
-func (s *tbShim) Fatal(args ...any)                 { s.Fatalf("%s", fmt.Sprint(args...)) }
-func (s *tbShim) FailNow()                          { panic("vk: rapid failnow") }
-func (s *tbShim) Fail()                             { s.failed = true }
-func (s *tbShim) Failed() bool                      { return s.failed }
+func (s *tbShim) Error(args ...any) { s.Errorf("%s", fmt.Sprint(args...)) }
+func (s *tbShim) Fatalf(format string, args ...any) {
+	s.Errorf(format, args...)
+	panic("vk: rapid fatal")
+}
+func (s *tbShim) Fatal(args ...any) { s.Fatalf("%s", fmt.Sprint(args...)) }
+func (s *tbShim) FailNow()          { panic("vk: rapid failnow") }
+func (s *tbShim) Fail()             { s.failed = true }
+func (s *tbShim) Failed() bool      { return s.failed }
